@@ -30,7 +30,7 @@ ASSUMPTIONS = [
     "link faults are enabled only after bring-up; if the link fails the stack stops and every later call raises (C10's subject)",
     "command payload schemas inside the NCP model are bellows' own tables",
 ]
-PROBES = ["behaviour.reply", "behaviour.late", "behaviour.never", "behaviour.dup", "behaviour.wrongseq", "behaviour.cb_before", "behaviour.cb_after",
+PROBES = ["behaviour.sendfail", "behaviour.reply", "behaviour.late", "behaviour.never", "behaviour.dup", "behaviour.wrongseq", "behaviour.cb_before", "behaviour.cb_after",
           "call_ok", "call_timeout", "call_cancelled", "call_other_exc", "priority_overtake", "queued_behind_inflight", "seq_wrapped",
           "late_reply_swallowed", "dup_delivered_as_callback", "cancel_while_queued", "cancel_while_sending", "cancel_while_awaiting",
           "link_failed", "sched.batch", "sched.reorder", "twin.call_reply", "twin.call_cb", "twin.call_never", "twin.reconnected"]
@@ -444,6 +444,14 @@ def run(scenario, params, tape, detail=False):
             viol.append(("C06.prio", "order", f"call {c['id']} ({c['name']}, prio {c['prio']}, {how}) started before queued {[(x['id'], x['name'], x['prio']) for x in better]}"))
         if q and not better and any(x["invoked"] < c["invoked"] for x in q):
             probe("priority_overtake")
+        if workload_on[0] and not wrapfast and tape.draw(24, "sendfail") == 23:
+            # a link-level send failure confined to THIS command (its frame is not written; the link layer reports the failure to the caller):
+            # the caller sees it, nobody else does
+            import bellows.ash as _ash
+
+            c["sendfail"] = True
+            probe("behaviour.sendfail")
+            raise _ash.NcpFailure(code=t.NcpResetCode.ERROR_EXCEEDED_MAXIMUM_ACK_TIMEOUT_COUNT)
 
     def on_send_done(data, exc):
         c = cur.get(asyncio.current_task())
@@ -627,7 +635,10 @@ def run(scenario, params, tape, detail=False):
                         viol.append(("C06.own", "reply-ignored", f"call {c['id']} ({c['name']}, seq {c['seq']}) timed out although the NCP replied promptly under its sequence"))
             else:
                 probe("call_other_exc")
-                if not faults and not link_failed and res[1] not in ("EzspError",):
+                if c.get("sendfail"):
+                    if res[1] != "NcpFailure":
+                        viol.append(("C06.own", "send-failure-not-relayed", f"call {c['id']} ({c['name']}): its send failed at the link layer, the caller saw {res[2]!r}"))
+                elif not faults and not link_failed and res[1] not in ("EzspError",):
                     viol.append(("C06.own", "unexpected-exception", f"call {c['id']} ({c['name']}) raised {res[2]!r} on a fault-free link"))
         else:
             probe("call_cancelled")
